@@ -854,6 +854,8 @@ func (filter *TrzszFilter) wrapOutput() {
 			if filter.options.EnableZmodem {
 				if zmodem := detectZmodem(buf); zmodem != nil {
 					_ = writeAll(filter.clientOut, buf)
+					// `ctrl + c` may arrive before handleZmodemEvent runs, so the writers must be set before the session is visible
+					zmodem.logger, zmodem.serverIn, zmodem.clientOut = filter.logger, filter.serverIn, filter.clientOut
 					if filter.zmodem.CompareAndSwap(nil, zmodem) {
 						hideCursor(filter.clientOut)
 						filter.hidingCursor = true
